@@ -1,13 +1,259 @@
 (* C05 — property theorems.  Only statements closed by `exact <lemma>` (or a
-   short wrapper) and the Print Assumptions that the check collects. *)
-From Coq Require Import ZArith List Bool Lia Ring Field.
+   short wrapper) and the Print Assumptions that the check collects.
+
+   Carrier: any type R with (0, 1, +, *, -, /, opp, inv, <=?, =?) satisfying
+   `ordered_field` (Proofs.v): field_theory with Leibniz equality, 1+1 <> 0,
+   n <> 0 for n >= 1, a-m <=? b-m = a <=? b, =? decides equality.  Arrays are
+   lists of rows (row = channel, entries = samples); `rect x` = all rows have
+   the width of the first one. *)
+From Coq Require Import ZArith List Bool Lia Ring Field QArith.
 From IBL.lib Require Import PyInt.
-From IBL.C05 Require Import Model Proofs.
+From IBL.C05 Require Import Model Proofs Run.
 Import ListNotations.
 
-(* destripe: the rows handed to the spatial filter are exactly the channels whose
-   label is not 3 ("outside the brain"), in channel order. *)
-Theorem C05_inside_brain_indices : forall labels i,
-  In i (inside_brain labels) <-> (i < length labels)%nat /\ nth i labels 0%Z <> 3%Z.
-Proof. exact inside_brain_spec. Qed.
-Print Assumptions C05_inside_brain_indices.
+Local Notation pos c coll := (positions c coll O).
+
+(* ---- referencing -------------------------------------------------------- *)
+
+(* car(x, None, 'median'): at every sample the median over channels of the output is 0 *)
+Theorem C05_car_zero_median :
+  forall R rO rI radd rmul rsub rdiv ropp rinv rleb reqb,
+  ordered_field R rO rI radd rmul rsub rdiv ropp rinv rleb reqb ->
+  forall (x : list (list R)) j, rect R x -> x <> [] -> (j < ncols R x)%nat ->
+  median R rO rI radd rdiv rleb (col R rO j (car_base R rO rI radd rsub rdiv rleb 0 x)) = rO.
+Proof. intros until 1. destruct H as (F & T & C & L & E). eapply car_base_zero_median; eauto. Qed.
+Print Assumptions C05_car_zero_median.
+
+(* car(x, None, 'average'): at every sample the mean over channels of the output is 0 *)
+Theorem C05_car_zero_mean :
+  forall R rO rI radd rmul rsub rdiv ropp rinv rleb reqb,
+  ordered_field R rO rI radd rmul rsub rdiv ropp rinv rleb reqb ->
+  forall (x : list (list R)) j, rect R x -> x <> [] -> (j < ncols R x)%nat ->
+  mean R rO rI radd rdiv (col R rO j (car_base R rO rI radd rsub rdiv rleb 1 x)) = rO.
+Proof. intros until 1. destruct H as (F & T & C & L & E). eapply car_base_zero_mean; eauto. Qed.
+Print Assumptions C05_car_zero_mean.
+
+(* car(x, collection, operator): the rows of every channel group are car(rows of
+   that group alone, None, the SAME operator); shape preserved; every channel
+   belongs to the group of its label.  (The recursion forwards `operator`.) *)
+Theorem C05_car_groups_honour_operator :
+  forall R rO rI radd rmul rsub rdiv ropp rinv rleb reqb,
+  ordered_field R rO rI radd rmul rsub rdiv ropp rinv rleb reqb ->
+  forall op coll (x out : list (list R)), coll <> [] ->
+  car R rO rI radd rsub rdiv rleb op (Some coll) x = Some out ->
+  length out = length x /\ length coll = length x /\
+  (forall c, In c coll ->
+     gather [] (pos c coll) out = car_base R rO rI radd rsub rdiv rleb op (gather [] (pos c coll) x)) /\
+  (forall i, (i < length x)%nat -> In i (pos (nth i coll 0%Z) coll)).
+Proof.
+  intros until 1. destruct H as (F & T & C & L & E). intros op coll x out Hne Hc.
+  pose proof Hc as Hc'. unfold car in Hc'.
+  destruct (grouped_spec _ [] (zero_row R rO) _
+              (car_base_length R rO rI radd rmul rsub rdiv ropp rinv rleb reqb F T C L E op)
+              coll x out Hne Hc') as (A1 & A2 & A3 & A4).
+  split; [exact A2|]. split; [exact A1|]. split; [exact A3|exact A4].
+Qed.
+Print Assumptions C05_car_groups_honour_operator.
+
+(* a collection of the wrong length is rejected (IndexError), never silently used *)
+Theorem C05_car_collection_length_checked :
+  forall R rO rI radd rsub rdiv rleb op coll (x : list (list R)),
+  coll <> [] -> length coll <> length x ->
+  car R rO rI radd rsub rdiv rleb op (Some coll) x = None.
+Proof.
+  intros R rO rI radd rsub rdiv rleb op coll x Hne HL. unfold car, grouped.
+  destruct coll as [|c0 coll]; [congruence|].
+  destruct (Nat.eqb_spec (length (c0 :: coll)) (length x)); [contradiction|reflexivity].
+Qed.
+Print Assumptions C05_car_collection_length_checked.
+
+(* with groups: zero median at every sample within each channel group *)
+Theorem C05_car_groups_zero_median :
+  forall R rO rI radd rmul rsub rdiv ropp rinv rleb reqb,
+  ordered_field R rO rI radd rmul rsub rdiv ropp rinv rleb reqb ->
+  forall coll (x out : list (list R)) c j, rect R x -> coll <> [] ->
+  car R rO rI radd rsub rdiv rleb 0 (Some coll) x = Some out -> In c coll -> (j < ncols R x)%nat ->
+  median R rO rI radd rdiv rleb (col R rO j (gather [] (pos c coll) out)) = rO.
+Proof. intros until 1. destruct H as (F & T & C & L & E). eapply car_grouped_zero_median; eauto. Qed.
+Print Assumptions C05_car_groups_zero_median.
+
+(* with groups and operator='average': zero mean within each channel group *)
+Theorem C05_car_groups_zero_mean :
+  forall R rO rI radd rmul rsub rdiv ropp rinv rleb reqb,
+  ordered_field R rO rI radd rmul rsub rdiv ropp rinv rleb reqb ->
+  forall coll (x out : list (list R)) c j, rect R x -> coll <> [] ->
+  car R rO rI radd rsub rdiv rleb 1 (Some coll) x = Some out -> In c coll -> (j < ncols R x)%nat ->
+  mean R rO rI radd rdiv (col R rO j (gather [] (pos c coll) out)) = rO.
+Proof. intros until 1. destruct H as (F & T & C & L & E). eapply car_grouped_zero_mean; eauto. Qed.
+Print Assumptions C05_car_groups_zero_mean.
+
+(* ---- kfilt / fk with channel groups ------------------------------------- *)
+
+(* kfilt(x, collection, lagc, butter_kwargs, gpu): every group's rows are the
+   kfilt of that group alone with the same lagc, butter_kwargs (default resolved)
+   and gpu, and with ntr_pad = 0, ntr_tap = None.  `base` = kfilt without collection. *)
+Theorem C05_kfilt_groups_same_settings :
+  forall R (rO : R) base p coll (x out : list (list R)) c,
+  (forall q m, length (base q m) = length m) -> coll <> [] ->
+  kfilt R rO base p (Some coll) x = Some out -> In c coll ->
+  length out = length x /\
+  exists q, gather [] (pos c coll) out = base q (gather [] (pos c coll) x) /\
+            k_lagc q = k_lagc p /\ k_gpu q = k_gpu p /\
+            k_butter q = (if (k_butter p =? -1)%Z then 0%Z else k_butter p) /\
+            k_ntr_pad q = 0%Z /\ k_ntr_tap q = (-1)%Z.
+Proof.
+  intros R rO base p coll x out c Hb Hne H Hc.
+  destruct (kfilt_groups R rO base p coll x out c Hb Hne H Hc) as [A B].
+  split; [exact A|]. exists (kfilt_forward p). split; [exact B|]. apply kfilt_forward_settings.
+Qed.
+Print Assumptions C05_kfilt_groups_same_settings.
+
+(* fk(x, collection, ...): every group's rows are fk of that group alone with ALL
+   the caller's settings (si, dx, vbounds, btype, ntr_pad, ntr_tap, lagc, kfilt) *)
+Theorem C05_fk_groups_same_settings :
+  forall R (rO : R) base (p : fk_params) coll (x out : list (list R)) c,
+  (forall q m, length (base q m) = length m) -> coll <> [] ->
+  fk R rO base p (Some coll) x = Some out -> In c coll ->
+  length out = length x /\
+  gather [] (pos c coll) out = base p (gather [] (pos c coll) x).
+Proof. exact fk_groups. Qed.
+Print Assumptions C05_fk_groups_same_settings.
+
+(* ---- gain control --------------------------------------------------------- *)
+
+(* agc returns (data, gain) of the input's shape; on a dead channel (gain sums to 0)
+   the data row is the input row; on a live channel data * gain = input at every
+   sample whose gain is non-zero.
+   PARTIAL with respect to the property ("product is the input" outright): the full
+   statement additionally needs gain_ij <> 0 on live rows, which holds for w >= 0,
+   epsilon > 0 over an ordered field (gain_ij >= epsilon * S / ns > 0); that order
+   argument is not formalised here — the run-time oracle checks the product on the
+   implementation for every generated case. *)
+Theorem C05_agc_product_partial :
+  forall R rO rI radd rmul rsub rdiv ropp rinv rleb reqb (rabs : R -> R),
+  ordered_field R rO rI radd rmul rsub rdiv ropp rinv rleb reqb ->
+  forall w eps (x : list (list R)) i, (i < length x)%nat ->
+  let r := nth i x [] in
+  let o := nth i (fst (agc R rO rI radd rmul rdiv reqb rabs w eps x)) [] in
+  let g := nth i (snd (agc R rO rI radd rmul rdiv reqb rabs w eps x)) [] in
+  length (fst (agc R rO rI radd rmul rdiv reqb rabs w eps x)) = length x /\
+  length (snd (agc R rO rI radd rmul rdiv reqb rabs w eps x)) = length x /\
+  length o = length r /\ length g = length r /\
+  (rsum R rO radd g = rO -> o = r) /\
+  (rsum R rO radd g <> rO -> forall j, (j < length r)%nat -> nth j g rO <> rO ->
+     rmul (nth j o rO) (nth j g rO) = nth j r rO).
+Proof.
+  intros until 1. destruct H as (F & T & C & L & E). intros w eps x i Hi.
+  exact (agc_spec R rO rI radd rmul rsub rdiv ropp rinv rleb reqb rabs F T C L E w eps x i Hi).
+Qed.
+Print Assumptions C05_agc_product_partial.
+
+(* ---- destripe: channels outside the brain --------------------------------- *)
+
+(* the spatial step of destripe: shape preserved; rows whose label is 3 are returned
+   as they entered (as produced by the interpolation step); the rows handed to the
+   spatial filter are exactly those with label <> 3, in channel order, and they are
+   replaced by the filter's output; the index vector is characterised. *)
+Theorem C05_outside_excluded :
+  forall R (spatial : list (list R) -> list (list R)) labels (x : list (list R)),
+  (forall m, length (spatial m) = length m) -> length labels = length x ->
+  let y := spatial_step R spatial labels x in
+  length y = length x /\
+  (forall i, (i < length labels)%nat -> nth i labels 0%Z = 3%Z -> nth i y [] = nth i x []) /\
+  gather [] (inside_brain labels) y = spatial (gather [] (inside_brain labels) x) /\
+  (forall i, In i (inside_brain labels) <-> (i < length labels)%nat /\ nth i labels 0%Z <> 3%Z) /\
+  NoDup (inside_brain labels).
+Proof.
+  intros R spatial labels x Hs HL.
+  destruct (spatial_step_spec R spatial labels x Hs HL) as (A & B & C). cbv zeta.
+  split; [exact A|]. split.
+  - intros i Hi H3. apply B. intros Hin. apply inside_brain_spec in Hin. tauto.
+  - split; [exact C|]. split; [apply inside_brain_spec|].
+    apply incr_from_NoDup with O. apply positions_ne_incr.
+Qed.
+Print Assumptions C05_outside_excluded.
+
+(* the data of channels labelled 3 is not an input of the spatial filter *)
+Theorem C05_outside_not_an_input :
+  forall R labels (x x' : list (list R)),
+  (forall i, (i < length labels)%nat -> nth i labels 0%Z <> 3%Z -> nth i x [] = nth i x' []) ->
+  gather ([] : list R) (inside_brain labels) x = gather [] (inside_brain labels) x'.
+Proof.
+  intros R labels x x' H. apply spatial_input_independent.
+  intros i Hi. apply inside_brain_spec in Hi. now apply H.
+Qed.
+Print Assumptions C05_outside_not_an_input.
+
+(* ---- the exact-arithmetic limit of "at least 40 dB" ------------------------ *)
+
+(* car on channels that all carry the same waveform returns exactly zero (both operators) *)
+Theorem C05_car_annihilates_common_signal :
+  forall R rO rI radd rmul rsub rdiv ropp rinv rleb reqb,
+  ordered_field R rO rI radd rmul rsub rdiv ropp rinv rleb reqb ->
+  forall op (x : list (list R)) r, (op = 0 \/ op = 1)%Z -> x <> [] -> all_rows R x r ->
+  all_zero R rO (car_base R rO rI radd rsub rdiv rleb op x).
+Proof. intros until 1. destruct H as (F & T & C & L & E). eapply car_base_kills_common; eauto. Qed.
+Print Assumptions C05_car_annihilates_common_signal.
+
+(* kfilt (gain control, mirrored padding, high-pass H along channels, unpadding,
+   gain restored; no taper, as in destripe) on channels that all carry the same
+   waveform returns exactly zero, provided H returns zero on blocks of equal rows
+   (a linear high-pass annihilating channel-constant input). *)
+Theorem C05_kfilt_annihilates_common_signal :
+  forall R rO rI radd rmul rsub rdiv ropp rinv rleb reqb (rabs : R -> R),
+  ordered_field R rO rI radd rmul rsub rdiv ropp rinv rleb reqb ->
+  forall H taper window eps,
+  (forall b m r, all_rows R m r -> all_zero R rO (H b m)) ->
+  forall p (x : list (list R)) r,
+  (k_ntr_tap p = 0 \/ (k_ntr_tap p = -1 /\ k_ntr_pad p <= 0))%Z -> all_rows R x r ->
+  all_zero R rO (kfilt_base R rO rI radd rmul rdiv reqb rabs H taper window eps p x).
+Proof. intros until 1. destruct H as (F & T & C & L & E). intros. eapply kfilt_base_kills_common; eauto. Qed.
+Print Assumptions C05_kfilt_annihilates_common_signal.
+
+(* destripe (no labels): if re-aligning every temporally filtered channel by its own
+   ADC delay yields one common waveform u (C07: fshift is an exact fractional delay of
+   a band-limited periodic signal), and the spatial filter annihilates blocks of equal
+   rows (the two theorems above), the output is exactly zero. *)
+Theorem C05_stripe_annihilated :
+  forall R (rO : R) butter1 fshift1 interp spatial shifts (x : list (list R)) u,
+  length shifts = length x ->
+  (forall c, (c < length x)%nat -> fshift1 (nth c shifts rO) (butter1 (nth c x [])) = u) ->
+  (forall m, all_rows R m u -> all_zero R rO (spatial m)) ->
+  all_zero R rO (destripe R butter1 fshift1 interp spatial (Some shifts) None x).
+Proof. exact destripe_kills_aligned_stripe. Qed.
+Print Assumptions C05_stripe_annihilated.
+
+(* ---- ADC delay table ------------------------------------------------------- *)
+
+(* adc_shifts: channel c of the 384 sits in slot (c mod 2*adc_channels) / 2 of its
+   ADC's sampling cycle, i.e. its delay is that slot / n_cycles, in [0, 1) sample
+   (NP1 / NPultra: 12 of 13 cycles; NP2: 16 of 16). *)
+Theorem C05_adc_delay_table : forall ver c, (0 <= c < 384)%Z ->
+  let ac := fst (adc_params ver) in
+  (adc_shift_num ver c = (c mod (2 * ac)) / 2 /\ 0 <= adc_shift_num ver c < ac /\
+   ac <= snd (adc_params ver))%Z.
+Proof. exact adc_closed_form. Qed.
+Print Assumptions C05_adc_delay_table.
+
+(* ---- non-vacuity: the model run on concrete inputs (Q instance of Run.v) ----- *)
+Local Open Scope Z_scope.
+
+(* three channels, groups {0,2} and {1}, operator 'average' and 'median' *)
+Example C05_example_car_groups :
+  run [1; 1; 1; 3; 7; 2; 7;  3; 2; 1;  1; 5;  3; 2;  2; 9]
+    = [1;  -1; 2; -2; 1;  0; 1; 0; 1;  1; 2; 2; 1] /\
+  run [1; 0; 0; 0;  3; 2; 1;  1; 5;  3; 2;  2; 9] = [1; -1; 1; 0; 1;  1; 1; -3; 1;  0; 1; 4; 1] /\
+  run [1; 0; 1; 2; 0; 1;  3; 1; 1;  4; 5; 6] = [0].
+Proof. vm_compute. repeat split. Qed.
+
+(* agc with the 3-tap window [0,1,0], epsilon 1/8: a live row and a dead row *)
+Example C05_example_agc :
+  run [2; 2; 1; 3; 1; 0; 1; 0; 1; 8; 2; 3; 1;  1; -2; 3;  0; 0; 0]
+    = [1; 4; 5; -8; 9; 12; 13; 0; 1; 0; 1; 0; 1;  5; 4; 9; 4; 13; 4; 0; 1; 0; 1; 0; 1].
+Proof. vm_compute. reflexivity. Qed.
+
+(* labels 0 3 1 3 2: inside = [0;2;4], outside = [1;3]; kfilt forwarding of lagc / butter *)
+Example C05_example_labels_and_forwarding :
+  run [3; 5; 0; 3; 1; 3; 2] = [3; 0; 2; 4; 2; 1; 3] /\
+  run [5; 60; 0; 7; -1; 0; 4; 2; 1; 2; 1] = [2;  1; 2; 1; 3; 0; -1; 7; 0; 0;  2; 2; 0; 2; 0; -1; 7; 0; 0].
+Proof. vm_compute. split; reflexivity. Qed.
